@@ -104,4 +104,31 @@ theorem dphi_eq (α φ lam : ℝ) (c : String → ℝ) :
   simp only [zero_mul, Real.sin_zero, one_mul, sub_zero, mul_zero, neg_zero]
   ring
 
+/-- a guarded accumulation loses nothing when the increment vanishes whenever all guard keys read 0 -/
+theorem guardAdd_eq (present : String → Bool) (c : String → ℝ) (hc : ∀ k, present k = false → c k = 0)
+    (ks : List String) (x t : ℝ) (ht : (∀ k ∈ ks, c k = 0) → t = 0) :
+    guardAdd (List.any ks present) x t = x + t := by
+  unfold guardAdd
+  by_cases h : List.any ks present = true
+  · simp only [h, if_true]
+  · have hz : ∀ k ∈ ks, c k = 0 := by
+      intro k hk
+      apply hc
+      by_contra hp
+      exact h (List.any_eq_true.mpr ⟨k, hk, by simpa using hp⟩)
+    simp only [h, Bool.false_eq_true, if_false, ht hz, add_zero]
+
+theorem guardSub_eq (present : String → Bool) (c : String → ℝ) (hc : ∀ k, present k = false → c k = 0)
+    (ks : List String) (x t : ℝ) (ht : (∀ k ∈ ks, c k = 0) → t = 0) :
+    guardSub (List.any ks present) x t = x - t := by
+  unfold guardSub
+  by_cases h : List.any ks present = true
+  · simp only [h, if_true]
+  · have hz : ∀ k ∈ ks, c k = 0 := by
+      intro k hk
+      apply hc
+      by_contra hp
+      exact h (List.any_eq_true.mpr ⟨k, hk, by simpa using hp⟩)
+    simp only [h, Bool.false_eq_true, if_false, ht hz, sub_zero]
+
 end QuantemModel.Aberration
